@@ -118,7 +118,35 @@ fn setup_pair(ev: &mut Vec<Ev>, rng: &mut Prng, c: usize, cfg: &Cfg, s_model: bo
     let kem = cfg.suite.kem;
     let nsk = kem.rfc_sizes().2;
     let ikm_r = if rng.chance(1, 30) { b(rng.rand_bytes(nsk)) } else { ikm(rng) };
-    ev.push(Ev::Keygen { k: 2 * c, kem, ikm: ikm_r.clone() });
+    if rng.chance(1, 25) {
+        // special private keys as the recipient's: scalar 1, 2, n-1, n-2 (NIST); for X25519 a private
+        // key that differs from a derived one only in bits that RFC 7748 clamping discards (same
+        // public key, so the session must work exactly as with the derived key)
+        let (sk, pk) = if kem.is_nist() {
+            let cv = math::curve(kem);
+            let one = math::U::from_u64(1);
+            let two = math::U::from_u64(2);
+            let s_ = match rng.below(4) {
+                0 => one,
+                1 => two,
+                2 => cv.n.sub(&one).0,
+                _ => cv.n.sub(&two).0,
+            };
+            let sk = s_.to_be(nsk);
+            let pk = refhpke::pk_of(kem, &sk).expect("special scalar has a public key");
+            (sk, pk)
+        } else {
+            let (mut sk, pk, _) = refhpke::derive_keypair(kem, &ikm_r);
+            sk[0] ^= 1 + rng.below(7) as u8; // low three bits
+            if rng.chance(1, 2) {
+                sk[31] ^= 0x80;
+            }
+            (sk, pk)
+        };
+        ev.push(Ev::KeyRaw { k: 2 * c, kem, sk: b(sk), pk: b(pk) });
+    } else {
+        ev.push(Ev::Keygen { k: 2 * c, kem, ikm: ikm_r.clone() });
+    }
     let ks = if cfg.mode.has_auth() {
         if rng.chance(1, 15) {
             // aliasing: a self-addressed authenticated session (sender identity = recipient key pair)
